@@ -521,7 +521,47 @@ def _pool_structure_ok():
     return "true" if ok else "false"
 
 
+# ---- C14 : main_thread_only execution ------------------------------------------------------------
+
+
+@fact("exec_sets_complete_always", "bool", "false")
+def _exec_sets_complete_always():
+    """WorkerGateway.executetask sets _executetask_complete on EVERY exit: the set() sits in a `finally:` whose try
+    block contains the whole body (exec, channel.close on every path)"""
+    f = find("gateway_base.py", "WorkerGateway.executetask")
+    for tr in [n for n in f.body if isinstance(n, ast.Try)]:
+        fin = unparse(ast.Module(body=tr.finalbody, type_ignores=[])) if tr.finalbody else ""
+        body = unparse(ast.Module(body=tr.body, type_ignores=[]))
+        rest = [n for n in f.body if n is not tr]
+        if not ("self._executetask_complete.set()" in fin or ("executetask_complete.set()" in fin and "getattr(self, '_executetask_complete', None)" in fin)) or not all(isinstance(n, ast.Expr) and isinstance(n.value, ast.Constant) for n in rest):
+            continue
+        if "exec(co, loc)" in body and "channel.close()" in body:
+            return "true"
+        if body.strip() == "self._executetask(item)":
+            inner = unparse(find("gateway_base.py", "WorkerGateway._executetask"))
+            if "exec(co, loc)" in inner and "channel.close()" in inner and "_executetask_complete" not in inner:
+                return "true"
+    return "false"
+
+
+@fact("schedulexec_shape_ok", "bool", "false")
+def _schedulexec_shape_ok():
+    """_local_schedulexec (main_thread_only): wait(timeout=1) on the completion event, deadlock close + return
+    when it expires, clear() afterwards, spawn(executetask) last; serve() creates the event set"""
+    f = find("gateway_base.py", "WorkerGateway._local_schedulexec")
+    src = unparse(f)
+    i = [src.find(x) for x in ("self._executetask_complete.wait(timeout=1)", "channel.close(MAIN_THREAD_ONLY_DEADLOCK_TEXT)", "self._executetask_complete.clear()", "self._execpool.spawn(self.executetask")]
+    ok = all(k >= 0 for k in i) and i == sorted(i) and "if not self._executetask_complete.wait(timeout=1)" in src
+    sv = unparse(find("gateway_base.py", "WorkerGateway.serve"))
+    ok = ok and "self._executetask_complete = self.execmodel.Event()" in sv and "self._executetask_complete.set()" in sv
+    return "true" if ok else "false"
+
+
 DIGESTS = [
+    ("gateway_base.py", "WorkerGateway._local_schedulexec"),
+    ("gateway_base.py", "WorkerGateway.executetask"),
+    ("gateway_base.py", "WorkerGateway._executetask"),
+    ("gateway_base.py", "WorkerGateway.serve"),
     ("gateway_base.py", "WorkerPool"),
     ("gateway_base.py", "Reply"),
     ("gateway_base.py", "_Serializer"),
